@@ -247,9 +247,12 @@ def main(argv=None):
     bounded_info = None
     if spec.get("bounded") and not a.unit:
         try:
-            bm = importlib.import_module(spec["bounded"])
             if sys.path[0] != runner.REPO:
                 sys.path.insert(0, runner.REPO)
+            bm = importlib.import_module(spec["bounded"])
+            import architecture_simulator as _as
+            if not os.path.realpath(_as.__file__).startswith(os.path.realpath(runner.REPO) + os.sep):
+                raise RuntimeError("bounded module would exercise %s, not the tree under check (%s)" % (_as.__file__, runner.REPO))
             bounded_info = bm.run(tier, seed)
             for v in bounded_info.get("violations", []):
                 k = None
